@@ -59,6 +59,7 @@ func runC05(ctx *Ctx, c c05Case) {
 	if noOut {
 		ctx.Res.Count("no-out-port-proc")
 	}
+	netVerdict(ctx, c, rr)
 	if rr.Exit == -2 {
 		class := "c05.hang"
 		if c.Buf == 0 {
@@ -196,3 +197,129 @@ func checkC05(ctx *Ctx) {
 }
 
 func init() { checks["C05"] = checkC05 }
+
+// netEncode maps a DAG to the network counting model: one node per DAG node, plus one source node
+// per FromStr feeder; ok=false for shapes the model does not cover (ParamCombinator buffers a whole stream)
+func netEncode(g Dag) (names []string, ins []string, src []string, ok bool) {
+	idx := map[string]int{}
+	add := func(name string, in []int, s int) {
+		idx[name] = len(names)
+		names = append(names, name)
+		if len(in) == 0 {
+			ins = append(ins, "-")
+		} else {
+			parts := []string{}
+			for _, i := range in {
+				parts = append(parts, fmt.Sprint(i))
+			}
+			ins = append(ins, strings.Join(parts, ","))
+		}
+		src = append(src, fmt.Sprint(s))
+	}
+	for _, n := range g.Nodes {
+		switch n.Kind {
+		case "src":
+			add(n.Name, nil, n.Items)
+		case "psrc":
+			add(n.Name, nil, len(n.PVals))
+		case "pcomb":
+			return nil, nil, nil, false
+		case "proc":
+			in := []int{}
+			for _, u := range n.Ins {
+				in = append(in, idx[u])
+			}
+			if n.PIn == "@" {
+				add(n.Name+"@feeder", nil, len(n.PVals))
+				in = append(in, idx[n.Name+"@feeder"])
+			} else if n.PIn != "" {
+				in = append(in, idx[n.PIn])
+			}
+			add(n.Name, in, 1) // a process without any port runs exactly once
+		}
+	}
+	return names, ins, src, true
+}
+
+func parseNetFinal(resp string) (term []bool, c []int, ok bool) {
+	for _, kv := range strings.Split(resp, ";") {
+		bits := strings.SplitN(kv, "=", 2)
+		if len(bits) != 2 {
+			return nil, nil, false
+		}
+		switch bits[0] {
+		case "term":
+			for _, x := range strings.Split(bits[1], ",") {
+				term = append(term, x == "1")
+			}
+		case "c":
+			for _, x := range strings.Split(bits[1], ",") {
+				var k int
+				fmt.Sscanf(x, "%d", &k)
+				c = append(c, k)
+			}
+		}
+	}
+	return term, c, len(term) > 0 && len(term) == len(c)
+}
+
+// netVerdict compares the real run with the network counting model (Props/C05's theorems are about this
+// model). A channel of capacity B holds B items, and a reader that waits for its other in-port holds one
+// more in hand, so the real system lies between the model with B and with B+1: if the model with B
+// terminates the real run must, if the model with B+1 deadlocks the real run must; when both terminate
+// every process has executed exactly the model's number of tasks.
+func netVerdict(ctx *Ctx, c c05Case, rr *RunRes) {
+	if c.Buf < 1 {
+		return
+	}
+	names, ins, src, ok := netEncode(c.Dag)
+	if !ok {
+		ctx.Res.Count("net-model=not-covered")
+		return
+	}
+	lo := ctx.Drv.Ask("net.final", fmt.Sprint(len(names)), strings.Join(ins, ";"), strings.Join(src, ","), fmt.Sprint(c.Buf))
+	hi := ctx.Drv.Ask("net.final", fmt.Sprint(len(names)), strings.Join(ins, ";"), strings.Join(src, ","), fmt.Sprint(c.Buf+1))
+	tlo, clo, ok1 := parseNetFinal(lo)
+	thi, _, ok2 := parseNetFinal(hi)
+	if !ok1 || !ok2 {
+		ctx.Res.Disagree(Violation{What: "network model gave no verdict: " + lo, Class: "c05.net", Witness: c})
+		return
+	}
+	all := func(t []bool) bool {
+		for _, x := range t {
+			if !x {
+				return false
+			}
+		}
+		return true
+	}
+	realDeadlock := rr.Exit == -2 || strings.Contains(rr.Stderr, "all goroutines are asleep")
+	realOK := rr.Exit == 0 && rr.Returned
+	switch {
+	case all(tlo):
+		ctx.Res.Count("net-model=terminates")
+	case !all(thi):
+		ctx.Res.Count("net-model=deadlocks")
+	default:
+		ctx.Res.Count("net-model=boundary")
+	}
+	if all(tlo) && realDeadlock {
+		ctx.Res.Disagree(Violation{What: fmt.Sprintf("the network model (B=%d) runs to completion, the real workflow deadlocked", c.Buf), Class: "c05.net", Witness: c})
+	}
+	if !all(thi) && realOK {
+		ctx.Res.Disagree(Violation{What: fmt.Sprintf("the network model (B=%d) ends stuck with unreturned processes (%s), the real workflow returned normally", c.Buf+1, hi), Class: "c05.net", Witness: c})
+	}
+	if all(tlo) && realOK {
+		started := map[string]int{}
+		for _, e := range rr.Trace {
+			if e.Point == "exec.start" {
+				started[e.Args[0]]++
+			}
+		}
+		for i, nm := range names {
+			if nd := c.Dag.node(nm); nd != nil && nd.Kind == "proc" && started[nm] != clo[i] {
+				ctx.Res.Disagree(Violation{What: fmt.Sprintf("process %s executed %d tasks, the network model creates %d", nm, started[nm], clo[i]), Class: "c05.net", Witness: c})
+			}
+		}
+	}
+}
